@@ -279,6 +279,62 @@ static void conv_big_case(uint64_t idx, void *vctx)
     if (!vf_in_confirm) vf_outcome(vf_mix(A, 3216));
 }
 
+/* ---------- bands of many rectangles (C07): combs ----------
+ * The universes hold at most four rectangles per band.  A comb: a cap [0, 4n) x [0,1), `gap` empty rows, a band of n teeth [4i, 4i+2) x [1+gap, 3+gap),
+ * optionally a second band of n/2 wider teeth below.  contains_point at every grid point around and inside it, contains_rectangle for a family of
+ * rectangles, for both coordinate widths; n runs across 16 / 17 / 32 / 33 (any internal switch from a linear walk to a search inside a band). */
+typedef struct { int n, gap, second; } comb_t;
+static int comb_has(const comb_t *c, int x, int y)
+{
+    int W = 4 * c->n;
+    if (y == 0) return x >= 0 && x < W;
+    int t0 = 1 + c->gap;
+    if (y >= t0 && y < t0 + 2) return x >= 0 && x < W && (x % 4) < 2;
+    if (c->second && y >= t0 + 2 && y < t0 + 3) return x >= 0 && x < W && (x % 8) < 5;
+    return 0;
+}
+static void comb_case(uint64_t idx, void *vctx)
+{
+    (void)vctx;
+    static const int NS[8] = { 3, 15, 16, 17, 18, 32, 33, 70 };
+    comb_t c = { NS[idx % 8], (int)(idx / 8 % 3), (int)(idx / 24 % 2) };
+    int wbits = (idx / 48) ? 32 : 16;
+    int W = 4 * c.n, t0 = 1 + c.gap, nb = 0;
+    static pixman_box32_t b32[200]; static pixman_box16_t b16[200];
+    b32[nb++] = (pixman_box32_t){ 0, 0, W, 1 };
+    for (int i = 0; i < c.n; i++) b32[nb++] = (pixman_box32_t){ 4 * i, t0, 4 * i + 2, t0 + 2 };
+    if (c.second) for (int i = 0; i < (c.n + 1) / 2; i++) { int x2 = 8 * i + 5 > W ? W : 8 * i + 5; b32[nb++] = (pixman_box32_t){ 8 * i, t0 + 2, x2, t0 + 3 }; }
+    for (int i = 0; i < nb; i++) b16[i] = (pixman_box16_t){ (int16_t)b32[i].x1, (int16_t)b32[i].y1, (int16_t)b32[i].x2, (int16_t)b32[i].y2 };
+    pixman_region32_t r32; pixman_region16_t r16; int ok;
+    if (wbits == 32) ok = pixman_region32_init_rects(&r32, b32, nb); else ok = pixman_region_init_rects(&r16, b16, nb);
+    vf_count_transitions(1);
+    if (!ok) { vf_violation("c05-returned-false", "comb n=%d: init_rects returned FALSE", c.n); return; }
+    char what[160]; snprintf(what, sizeof what, "comb w=%d: cap [0,%d)x[0,1), %d empty row(s), %d teeth [4i,4i+2)x[%d,%d)%s", wbits, W, c.gap, c.n, t0, t0 + 2, c.second ? ", second band of wider teeth" : "");
+    uint64_t nq = 0;
+    for (int y = -1; y <= t0 + 4 && !vf_failed(); y++) for (int x = -1; x <= W + 1; x++) {
+        int want = comb_has(&c, x, y), got; pixman_box32_t bx = { 0, 0, 0, 0 };
+        if (wbits == 32) got = pixman_region32_contains_point(&r32, x, y, &bx);
+        else { pixman_box16_t b; memset(&b, 0, sizeof b); got = pixman_region_contains_point(&r16, x, y, &b); bx = (pixman_box32_t){ b.x1, b.y1, b.x2, b.y2 }; }
+        nq++;
+        if ((got != 0) != want) { vf_violation("c07-contains_point", "%s: contains_point(%d,%d) = %d, the point is %s the set", what, x, y, got, want ? "in" : "not in"); break; }
+        if (got && !(x >= bx.x1 && x < bx.x2 && y >= bx.y1 && y < bx.y2)) { vf_violation("c07-contains_point-box", "%s: contains_point(%d,%d) returned the rectangle [%d,%d,%d,%d], which does not hold the point", what, x, y, bx.x1, bx.y1, bx.x2, bx.y2); break; }
+    }
+    /* rectangles: every (x1, width in {1,2,3,5}, y1, height in {1,2}) */
+    static const int RWd[4] = { 1, 2, 3, 5 };
+    for (int y1 = -1; y1 <= t0 + 3 && !vf_failed(); y1++) for (int hh = 1; hh <= 2; hh++) for (int x1 = -1; x1 <= W && !vf_failed(); x1++) for (int wi = 0; wi < 4; wi++) {
+        int in = 0, out = 0;
+        for (int y = y1; y < y1 + hh; y++) for (int x = x1; x < x1 + RWd[wi]; x++) { if (comb_has(&c, x, y)) in++; else out++; }
+        int want = !in ? PIXMAN_REGION_OUT : !out ? PIXMAN_REGION_IN : PIXMAN_REGION_PART, got;
+        if (wbits == 32) { pixman_box32_t q = { x1, y1, x1 + RWd[wi], y1 + hh }; got = (int)pixman_region32_contains_rectangle(&r32, &q); }
+        else { pixman_box16_t q = { (int16_t)x1, (int16_t)y1, (int16_t)(x1 + RWd[wi]), (int16_t)(y1 + hh) }; got = (int)pixman_region_contains_rectangle(&r16, &q); }
+        nq++;
+        if (got != want) { vf_violation("c07-contains_rectangle", "%s: contains_rectangle([%d,%d,%d,%d]) = %d, expected %d (0 OUT, 1 IN, 2 PART)", what, x1, y1, x1 + RWd[wi], y1 + hh, got, want); break; }
+    }
+    vf_count_transitions(nq); vf_count_eval(1); vf_count_nontrivial(1);
+    if (!vf_in_confirm) vf_outcome(idx);
+    if (wbits == 32) pixman_region32_fini(&r32); else pixman_region_fini(&r16);
+}
+
 /* ---------- init_from_image (C07): every a1 bitmap of the shape list ---------- */
 typedef struct { int w, h; int nfree; int freecol[20]; int zero_padding; /* bits beyond the width and the padding word: all ones (0), all zeros (1), or a pattern that differs from row to row (2); none of them are pixels */ } img_ctx;
 
@@ -423,6 +479,9 @@ int main(int argc, char **argv)
       universe *u4 = make_universe(3, 3, MAP_EXTREME_HI, 16); conv_ctx c4 = { u4 }; vf_space_run("convert16<->32-3x3/extreme16-hi", u4->ninner * N_CONS, conv_case, &c4);
       /* more rectangles than the conversion's on-stack buffer (16): the 6x6 checkerboard and its complement */
       universe *u5 = make_universe(4, 4, MAP_NEG, 16); conv_ctx c5 = { u5 }; vf_space_run("convert16<->32-6x6-checker", 2 * N_CONS, conv_big_case, &c5); }
+#endif
+#if PROP == 7
+    vf_space_run("combs-bands-of-many-rectangles", 8 * 3 * 2 * 2, comb_case, NULL);
 #endif
 #if PROP != 5
     {   /* a1 bitmaps: all bitmaps of small shapes; wide shapes with free bits at the word-boundary columns */
